@@ -73,9 +73,13 @@ def run_opensmt(text, flavour="rel", args=(), cpu_s=20, mem_mb=4096, pipe=False,
             cmd = [exe] + list(args) + [path]
             inp = None
         try:
-            p = subprocess.run(cmd, input=inp, stdout=subprocess.PIPE, stderr=subprocess.PIPE,
-                               env=e, preexec_fn=_limits(cpu_s, mem_mb),
-                               timeout=wall_s or (cpu_s * 4 + 20))
+            # prlimit instead of preexec_fn: lets subprocess use vfork/posix_spawn (forking a python
+            # process with z3 loaded costs milliseconds of system time per case)
+            lim = ["prlimit", "--cpu=%d:%d" % (cpu_s, cpu_s + 1), "--core=0"]
+            if mem_mb:
+                lim.append("--as=%d" % (mem_mb << 20))
+            p = subprocess.run(lim + cmd, input=inp, stdout=subprocess.PIPE, stderr=subprocess.PIPE,
+                               env=e, timeout=wall_s or (cpu_s * 4 + 20))
             rc, out, err, to = p.returncode, p.stdout, p.stderr, False
         except subprocess.TimeoutExpired as ex:
             rc, out, err, to = None, ex.stdout or b"", ex.stderr or b"", True
